@@ -259,16 +259,18 @@ class ConScenario(Scenario):
         if kind in ("oldresp-non-samemid", "oldresp-con-samemid"):
             # ... and that response happens to carry, in the peer's own ID space, the very message ID of the CON under test: it is
             # neither an ACK nor a Reset for it
-            if mid in st.allowed_acks:
-                st.allowed_rsts.add(mid)
+            if mid in st.allowed_acks or getattr(st, "old_answered", False):
+                st.allowed_rsts.add(mid)       # (the older request has been answered already, under whichever message ID: its token is retired)
+            st.old_answered = True
             st.allowed_acks.add(mid)
             return src, (rc.NON if "non" in kind else rc.CON, 69, mid, st.old_token, [], b"old")
         if kind in ("oldresp-non", "oldresp-con"):
             # the separate response to the *older* request: it answers (and confirms) that one only
-            if 0x7001 in st.allowed_acks:
+            if 0x7001 in st.allowed_acks or getattr(st, "old_answered", False):
                 # a second copy arrives after the older request has been answered: its token is retired, so a
                 # confirmable copy is rejected like any unknown response (C02) - a Reset with its message ID
                 st.allowed_rsts.add(0x7001)
+            st.old_answered = True
             st.allowed_acks.add(0x7001)
             return src, (rc.NON if kind.endswith("non") else rc.CON, 69, 0x7001, st.old_token, [], b"old")
         if kind == "ackresp-badtoken":
